@@ -87,6 +87,13 @@ def generate(rng, tier):
                                         ("ind", [1] + trailing + [1], ["nat"] * L) if True else None,
                                         ("ind", [1] + [t + 1 for t in trailing], ["nat"] * gen.shape_size([t + 1 for t in trailing])) if trailing else
                                         ("ind", [2], ["nat"] * 2)]
+                                # shapes that merely broadcast to (1, trailing): all-ones, lower rank, 0-d
+                                more = [[1] + [1] * len(trailing), list(trailing), []] if trailing else [[], [1, 1]]
+                                if len(trailing) == 2:
+                                    more += [[1, trailing[0], 1] if trailing[0] != 1 or trailing[1] != 1 else [1, 1, 2], [trailing[1]]]
+                                for shp in more:
+                                    if shp != ok_shape:
+                                        bcs.append(("ind", shp, ["nat"] * gen.shape_size(shp)))
                         for bc in bcs:
                             fl = list(flat)
                             per_equal = True
